@@ -444,7 +444,7 @@ def run(ck):
 
 def _run(ck, rng):
   from . import c11 as c11mod
-  n = 120 if ck.tier == 'quick' else 1500
+  n = 120 if ck.tier == 'quick' else 800
   wc = WrapperChecks(ck)
   lines, meta = [], []
   for _ in range(n):
